@@ -3,7 +3,7 @@
 // C16 harness: a requester actor issuing reentrant requests to a responder actor that replies only when
 // the case script says so.  One actor system per process, one requester/responder pair per case.
 //
-// case line:  mode=<a|s|-> max=<n> | <op> <op> ...
+// case line:  mode=<a|s|-> max=<n> [to=<a|g>] | <op> <op> ...   (to=g: the responder is a grain, requests go through RequestGrain)
 //
 //	mode   actor-level reentrancy: a AllowAll, s StashNonReentrant, - not enabled ; max = MaxInFlight (0 = no limit)
 //	ops (k = one digit label):
@@ -109,11 +109,33 @@ func (r *responder) Receive(ctx *actor.ReceiveContext) {
 	}
 }
 
+// grain responder: defers every reply (GrainContext.DeferResponse) until the script releases it
+type grainResponder struct {
+	mu      sync.Mutex
+	replies map[int]*actor.GrainReply
+}
+
+func (g *grainResponder) OnActivate(context.Context, *actor.GrainProps) error   { return nil }
+func (g *grainResponder) OnDeactivate(context.Context, *actor.GrainProps) error { return nil }
+func (g *grainResponder) OnReceive(ctx *actor.GrainContext) {
+	switch m := ctx.Message().(type) {
+	case *reqPayload:
+		if r := ctx.DeferResponse(); r != nil {
+			g.mu.Lock()
+			g.replies[m.K] = r
+			g.mu.Unlock()
+		}
+	default:
+		ctx.Unhandled()
+	}
+}
+
 // ---- requester -------------------------------------------------------------------
 
 type requester struct {
 	self      *actor.PID
 	to        *actor.PID
+	toGrain   *actor.GrainIdentity
 	mu        sync.Mutex
 	log       []string
 	calls     map[int]actor.RequestCall
@@ -185,7 +207,12 @@ func (q *requester) Receive(ctx *actor.ReceiveContext) {
 		case 'o':
 			opts = append(opts, actor.WithReentrancyMode(reentrancy.Off))
 		}
-		call := ctx.Request(q.to, &reqPayload{K: m.k}, opts...)
+		var call actor.RequestCall
+		if q.toGrain != nil {
+			call = ctx.RequestGrain(q.toGrain, &reqPayload{K: m.k}, opts...)
+		} else {
+			call = ctx.Request(q.to, &reqPayload{K: m.k}, opts...)
+		}
 		err := actor.VerifC16TakeErr(ctx)
 		res := "ok"
 		switch {
@@ -226,6 +253,11 @@ func handle(line string) string {
 	}
 	cfg := vlib.Fields(parts[0])
 	ops := vlib.Fields(parts[1])
+	grainTarget := false
+	if len(cfg) == 3 && (cfg[2] == "to=g" || cfg[2] == "to=a") {
+		grainTarget = cfg[2] == "to=g"
+		cfg = cfg[:2]
+	}
 	if len(cfg) != 2 || !strings.HasPrefix(cfg[0], "mode=") || !strings.HasPrefix(cfg[1], "max=") {
 		return "bad-case"
 	}
@@ -234,9 +266,16 @@ func handle(line string) string {
 	if err != nil || max < 0 || (mode != "a" && mode != "s" && mode != "-") {
 		return "bad-case"
 	}
+	seenQ := map[byte]bool{}
 	for _, op := range ops {
 		if !validOp(op) {
 			return "bad-case"
+		}
+		if op[0] == 'q' {
+			if seenQ[op[1]] {
+				return "bad-case" // a label is a correlation id: never issued twice
+			}
+			seenQ[op[1]] = true
 		}
 	}
 	ctx := context.Background()
@@ -247,6 +286,16 @@ func handle(line string) string {
 		return "spawn-error " + err.Error()
 	}
 	req := &requester{to: rp, calls: map[int]actor.RequestCall{}, releaseCh: make(chan struct{}, 64)}
+	gresp := &grainResponder{replies: map[int]*actor.GrainReply{}}
+	var gid *actor.GrainIdentity
+	if grainTarget {
+		gid, err = sys.GrainIdentity(ctx, fmt.Sprintf("gresp%d", caseNo), func(context.Context) (actor.Grain, error) { return gresp, nil })
+		if err != nil {
+			_ = rp.Shutdown(ctx)
+			return "spawn-error " + err.Error()
+		}
+		req.toGrain = gid
+	}
 	sopts := []actor.SpawnOption{actor.WithLongLived()}
 	switch mode {
 	case "a":
@@ -274,7 +323,7 @@ func handle(line string) string {
 	}()
 	settle := func() {
 		spin("settle", func() bool {
-			return actor.VerifC16Idle(rp) && (actor.VerifC16Idle(qp) || req.holding.Load())
+			return actor.VerifC16Idle(rp) && actor.VerifC16GrainIdle(sys, gid) && (actor.VerifC16Idle(qp) || req.holding.Load())
 		})
 	}
 	settle()
@@ -307,6 +356,18 @@ func handle(line string) string {
 				req.permits.Add(1)
 			}
 		case 'r':
+			if grainTarget {
+				gresp.mu.Lock()
+				gr := gresp.replies[k]
+				gresp.mu.Unlock()
+				if gr == nil {
+					res = "none"
+				} else {
+					// completing a GrainReply twice is a no-op by contract; failures are only logged
+					gr.Response(&replyPayload{K: k})
+				}
+				break
+			}
 			resp.mu.Lock()
 			f := resp.replies[k]
 			resp.mu.Unlock()
